@@ -6,7 +6,7 @@
    completions and their outcomes chosen by the environment) is an execution of
    the controller model on workflow w, ending in state s.  All theorems quantify
    over ALL executions. *)
-From Verif Require Import Flow.Model Flow.CycleProofs Flow.Spec Flow.Ops Flow.Invariant Flow.Proofs Flow.Examples.
+From Verif Require Import Flow.Model Flow.CycleProofs Flow.Spec Flow.Ops Flow.Invariant Flow.Proofs Flow.Examples Flow.Discover Flow.DiscoverProofs.
 From Coq Require Import List Bool Arith Permutation.
 Import ListNotations.
 
@@ -186,3 +186,85 @@ Example C18_start_after_deps_needs_closed :
   In (1, Some 0) (deps ex_selfgroup 0).
 Proof. exact start_after_deps_needs_closed. Qed.
 Print Assumptions C18_start_after_deps_needs_closed.
+
+(* ------------------------------------------------------------------ *)
+(* Dependency DISCOVERY (tools/flow/tasks.go markTaskDependencies / findImpliedTask /
+   getTask / tagChildren + dep.Visit/Recurse) for task-graph configurations
+   (Flow/Discover.v): tasks as struct fields, references into tasks and their
+   sub-fields, through non-task fields, to enclosing structs that contain tasks, into
+   tasks that only appear after a Fill. *)
+
+(* everything the discovery reports is justified by a chain of references that ends at or
+   below an existing task (for every fuel, every configuration, every result set) *)
+Theorem C18_discover_sound : forall fuel cfg res t d,
+  In d (discover fuel cfg res t) -> Refers cfg res t d.
+Proof. exact discover_sound. Qed.
+Print Assumptions C18_discover_sound.
+
+Theorem C18_discover_irrefl : forall fuel cfg res t, ~ In t (discover fuel cfg res t).
+Proof. exact discover_irrefl. Qed.
+Print Assumptions C18_discover_irrefl.
+
+Theorem C18_discover_absent : forall fuel cfg res t,
+  ~ In t (tasks_at cfg res) -> discover fuel cfg res t = [].
+Proof. exact discover_absent. Qed.
+Print Assumptions C18_discover_absent.
+
+(* the implementation never finds MORE than the Spec reading of the property asks for *)
+Theorem C18_discover_incl_spec : forall fuel cfg res t d,
+  In d (discover fuel cfg res t) -> In d (discover_spec fuel cfg res t).
+Proof. exact discover_incl_spec. Qed.
+Print Assumptions C18_discover_incl_spec.
+
+(* Along a run with completion order cs, the dependency sets of the controller model on
+   the workflow [wf_of_run cfg cs] are exactly the discoveries accumulated (addDep) over
+   the configurations the run went through; tasks exist from the first configuration
+   that contains them.  Hence every C18 theorem above (they hold for ALL workflows)
+   speaks about configurations with dynamically appearing tasks. *)
+Theorem C18_kdeps_wf_of_run : forall cfg cs j t d,
+  NoDup cs -> j <= length cs -> t < ntasks cfg ->
+  (In d (kdeps (wf_of_run cfg cs) (firstn j cs) t) <->
+   d <> t /\ d < ntasks cfg /\
+   exists i, i <= j /\ In d (discover (dfuel cfg) cfg (firstn i cs) t)).
+Proof. exact kdeps_wf_of_run. Qed.
+Print Assumptions C18_kdeps_wf_of_run.
+
+Theorem C18_trig_wf_of_run_active : forall cfg cs j t,
+  NoDup cs -> j <= length cs -> t < ntasks cfg ->
+  (In t cs -> exists i, i <= length cs /\ In t (tasks_at cfg (firstn i cs))) ->
+  (act (firstn j cs) (trig (wf_of_run cfg cs) t) = true <->
+   exists i, i <= j /\ In t (tasks_at cfg (firstn i cs))).
+Proof. exact trig_wf_of_run_active. Qed.
+Print Assumptions C18_trig_wf_of_run_active.
+
+Theorem C18_cfg_start_after_discovered : forall cfg cs,
+  wf_closed (wf_of_run cfg cs) ->
+  forall tr1 t tr2 s, t < ntasks cfg ->
+  run (wf_of_run cfg cs) (tr1 ++ Dispatch t :: tr2) = Some s ->
+  forall d i, i <= length cs -> d < ntasks cfg ->
+    In d (discover (dfuel cfg) cfg (firstn i cs) t) ->
+    In (Complete d true) tr1.
+Proof. exact cfg_start_after_discovered. Qed.
+Print Assumptions C18_cfg_start_after_discovered.
+
+(* Refuted Spec clause: a task that refers to a STRUCT CONTAINING another task does not
+   wait for it (see design/C18.md, proposed finding F-C18-1). *)
+Theorem C18_enclosing_reference_refuted :
+  In 1 (discover_spec (dfuel encl_cfg) encl_cfg [] 2) /\
+  discover (dfuel encl_cfg) encl_cfg [] 2 = [0] /\
+  option_map (fun s => (ti_state (info s 1), ti_state (info s 2)))
+             (run (wf_of_run encl_cfg (completions encl_tr)) encl_tr)
+  = Some (Running, Terminated true).
+Proof. exact enclosing_reference_refuted. Qed.
+Print Assumptions C18_enclosing_reference_refuted.
+
+Example C18_ex_discover_dynamic :
+  discover (dfuel dyn_cfg) dyn_cfg [] 4 = [0; 0] /\
+  discover (dfuel dyn_cfg) dyn_cfg [0] 4 = [1] /\
+  tasks_at dyn_cfg [] = [0; 5; 3; 4; 6; 7] /\
+  tasks_at dyn_cfg [0] = [0; 1; 2; 5; 3; 4; 6; 7] /\
+  kdeps (wf_of_run dyn_cfg [5; 0]) [5; 0] 4 = [0; 1] /\
+  kdeps (wf_of_run dyn_cfg [5; 0]) [5; 0] 7 = [0; 1; 2; 5] /\
+  kdeps (wf_of_run dyn_cfg [5; 0]) [5; 0] 3 = [0; 5].
+Proof. exact ex_discover_dynamic. Qed.
+Print Assumptions C18_ex_discover_dynamic.
